@@ -187,13 +187,15 @@ def setup(ctx):
     ctx.oracle("normalise", o_normalise)
 
     def kf_d24c(f):
-        # normalise on a list in which an object occurs twice (a part handed to concatenate twice).  Known only for the clauses the mechanism can
-        # break (well-formedness, sound, idempotence) and only when the OUTCOME is the mechanism's: the observed list is exactly what the
+        # normalise on a list in which an object occurs twice (a part handed to concatenate twice).  Known only for the clause the mechanism
+        # breaks — well-formedness: an orphan note-off and an unclosed note-on are left (audit round 4, B7: `sound` and `idempotent` are judged
+        # only for inputs whose note-ons and note-offs balance, and the mechanism needs a note-on that is never closed; 170 of 170 D24c failures
+        # of a thorough run are `wf`) — and only when the OUTCOME is the mechanism's: the observed list is exactly what the
         # harness-side model gives when the unclosed note-on is removed at the FIRST position holding that object, and that differs from
         # removing it where it stands (when the two agree the sharing is harmless and any failure is something else)
         inp = f["input"]
         if f["oracle"] != "normalise" or not inp.get("aliased_parts") or len(set(inp["order"])) == len(inp["order"]) \
-                or f["clause"] not in ("wf", "sound", "idempotent"):
+                or f["clause"] != "wf":
             return False
         d = f.get("detail") or ""
         if OBS not in d:
